@@ -23,6 +23,14 @@ theorem count_is_bytes_delivered {σ α : Type} (I : InputOps σ) (hraw : I.rawB
   obtain ⟨e, r1, r2⟩ := run_exact (counted_exact I hraw) p (s, t) (s, min t u64Max) ⟨rfl, rfl⟩
   exact ⟨e.symm, r1.symm, r2⟩
 
+/-- In particular for `Decode::skip` (a program of its own: `[T; N]` steps over fixed-size elements
+    one by one instead of decoding them): stepping over a value through the counting input counts
+    exactly the bytes the wrapped input delivered, whether the skip succeeds or stops half-way. -/
+theorem count_after_skip {σ : Type} (I : InputOps σ) (hraw : I.rawBytes = none) (ty : Ty) (s : σ) :
+    (run (countedInput I) (Impl.skipP ty) (s, 0)).2.2 = min (run (tallyInput I) (Impl.skipP ty) (s, 0)).2.2 u64Max := by
+  have := (count_is_bytes_delivered I hraw (Impl.skipP ty) s 0).2.2
+  simpa using this
+
 /-- Over a slice: after every decode, successful or failed, the count is the number of bytes
     consumed from the slice (`original length − remaining length`), saturating. -/
 theorem count_is_consumed (ty : Ty) (bs : Bytes) :
